@@ -99,9 +99,35 @@ type concreteErr struct{}
 func (*concreteErr) Error() string { return "concrete" }
 
 // c17Callback returns the Go function for a catalogue key of this mode (nil: not one of them).
+// cbRecv: user functions are often bound method values (svc.Lookup): one code pointer for
+// every receiver, the receiver travelling in the closure.
+type cbRecv struct{ tag string }
+
+func (c *cbRecv) Tag(in system.Collection) (system.Collection, error) {
+	observe("method", in)
+	return system.Collection{system.String(c.tag)}, nil
+}
+
+func (c cbRecv) TagV(in system.Collection) (system.Collection, error) {
+	observe("methodv", in)
+	return system.Collection{system.String(c.tag)}, nil
+}
+
+// declaredTag is a plain top-level function (no closure at all).
+func declaredTag(in system.Collection) (system.Collection, error) {
+	observe("declared", in)
+	return system.Collection{system.String("declared")}, nil
+}
+
 func c17Callback(key string) (any, bool) {
 	name, arg, _ := strings.Cut(key, ":")
 	switch name {
+	case "method": // bound method value, pointer receiver
+		return (&cbRecv{tag: arg}).Tag, true
+	case "methodv": // bound method value, value receiver
+		return cbRecv{tag: arg}.TagV, true
+	case "declared":
+		return declaredTag, true
 	case "obs0":
 		return func(in system.Collection) (system.Collection, error) { observe("obs0", in); return in, nil }, true
 	case "obsRetS": // observes, answers the String "abc"
@@ -600,6 +626,15 @@ func (e *c17Exec) runOp(in *inputs, oc *opCtx, ci, oi int, op *C17Op) string {
 		}
 		expectItems(want, "the callback's collection once per item")
 		st.fault("callback-odd")
+	case "method-identity": // mt() [& '|' & mu()]: each name runs the function registered under it in THIS Compile
+		want := op.Arg
+		if gerr != nil {
+			e.violate("custom-function", "callback-identity", fmt.Sprintf("%s: failed: %v", where, gerr))
+			break
+		}
+		if ok, d := sameItems(got, []any{system.String(want)}); !ok {
+			e.violate("custom-function", "callback-identity", fmt.Sprintf("%s: the functions registered for this Compile answer %q: %s", where, want, d))
+		}
 	case "iif-call": // iif(true, obs0()) on the input
 		expectItems(input, "the collection the callback returned (the input)")
 		e.expectObs(where, oc, [][]any{input}, [][]any{nil})
